@@ -62,7 +62,7 @@ def gen_case(rng: Rng, i: int, tier: str):
         ln = r.pick([24, 31, 32, 33, 100, 1000, 5000])
         ops.append({"op": r.pick(["writestr", "writef"]), "name": name, "content": {"tex": r.pick(["rand", "text", "code", "crc0"]), "len": ln, "seed": r.randrange(1 << 30)}, "as": "bytes", "bio": "bytesio"})
     hdr = r.wpick([(3, "enc"), (1, "raw"), (4, "crypt")])
-    sess = {"mode": "w", "chain": chain, "password": password, "header": hdr, "header_via": r.pick(["ctor", "setter"]), "ops": ops}
+    sess = {"mode": rng.sub("mode").pick(["w", "w", "x"]), "chain": chain, "password": password, "header": hdr, "header_via": r.pick(["ctor", "setter"]), "ops": ops}
     extra = rw.gen_header_extra(rng.sub("header_extra"), hdr, p=0.4)
     if extra:
         sess["header_extra"] = extra
